@@ -7,7 +7,7 @@ LEVEL = 'other'
 FILES = ['mesonbuild/interpreter/dependencyfallbacks.py', 'mesonbuild/wrap/wrap.py', 'mesonbuild/utils/universal.py']
 ENCODED = ['DependencyFallbacksHolder.__init__/set_fallback/lookup/_get_candidates/_do_dependency_cache/_do_dependency/_do_existing_subproject/_do_subproject/'
            '_get_subproject_dep/_get_cached_dep/_check_version/_verify_fallback_consistency', 'WrapMode.from_string', 'version_compare_many', 'stringlistify',
-           'wrap.Resolver._get_file_internal/_download/check_hash/check_can_download']
+           'wrap.Resolver._get_file_internal/_download/check_hash/check_can_download', 'wrap.Resolver._resolve (try/except around apply_patch / apply_diff_files)']
 EXPLANATION = ('Symbolic execution of the real dependency-fallback decision procedure with its environment replaced by nondeterministic stubs: wrap_mode, membership of the name / the '
                'subproject in force_fallback_for, required, allow_fallback, the kind of fallback, whether the system has the dependency, whether the subproject configures, an '
                'explicit override, and symbolic version numbers against a symbolic version constraint; the outcome is compared with the documented decision table, the '
@@ -17,7 +17,7 @@ ASSUMPTIONS = ['stubs: dependencies.find_external_dependency (found / not found)
                'wrap_resolver.find_dep_provider/get_varname, optstore.get_value_for, coredata.deps, build.dependency_overrides, mlog',
                'wrap: os.path.exists/Path.exists/os.rename/os.remove, Resolver.hash_file and get_data_with_backoff are a symbolic world in which every file has an arbitrary 2-character digest',
                'versions: single symbolic digits']
-OUT = 'archive extraction, git/hg/svn checkouts, TLS, the on-disk state of subprojects/ on the next run, msubprojects, apply_patch/apply_diff_files directory cleanup (needs real directories)'
+OUT = 'archive extraction, git/hg/svn checkouts, TLS, the on-disk state of subprojects/ on the next run, msubprojects, the bodies of apply_patch/apply_diff_files (stubs that return or raise)'
 MANIFEST = dict(
     text='Bounded symbolic decision of the fallback decision table over every combination of the policy inputs (a few thousand cells, each with symbolic versions) and of the '
          'verified-source rule over every outcome of the file-system / network stubs (fault outcomes are symbols).',
@@ -275,6 +275,62 @@ def ob_sources(what):
     return h
 
 
+def ob_cleanup():
+    """Resolver._resolve: whatever way the patch / diff step fails, the freshly unpacked directory is removed before the error propagates"""
+    def h():
+        exists = {}
+        removed = []
+        fos = types.SimpleNamespace()
+        fos.path = types.SimpleNamespace(exists=lambda p: exists.get(p, False), isdir=lambda p: exists.get(p, False) and not p.endswith('meson.build'),
+                                         join=os.path.join, relpath=os.path.relpath, basename=os.path.basename)
+        saved = (W.os, W.windows_proof_rmtree)
+        W.os = fos
+
+        def rmtree(p):
+            removed.append(p)
+            for k in list(exists):
+                if k == p or k.startswith(p + '/'): exists[k] = False
+        W.windows_proof_rmtree = rmtree
+        try:
+            r = object.__new__(W.Resolver)
+            r.source_dir = '/src'; r.subdir_root = '/src/subprojects'; r.cachedir = '/src/subprojects/packagecache'; r.wrap_mode = WrapMode.default
+            wrap = types.SimpleNamespace(directory='foo-1.0', subprojects_dir='/src/subprojects', original_filename=None, values={}, type=W.WrapType.FILE,
+                                         name='foo', update_hash_cache=lambda d: None)
+            r.wraps = {'foo': wrap}
+            r.resolve_git_submodule = lambda: False
+            ships_buildfile = decide(sym_bool('upstream_ships_meson_build'))
+
+            def get_file(name):
+                exists['/src/subprojects/foo-1.0'] = True
+                if ships_buildfile: exists['/src/subprojects/foo-1.0/meson.build'] = True
+            r._get_file = get_file
+            EXC = [None, WrapException('hash mismatch'), OSError('disk'), EOFError('truncated archive'), ValueError('bad tar member')]
+            pe = EXC[choose(len(EXC), 'patch_outcome')]
+            de = EXC[choose(len(EXC), 'diff_outcome')] if pe is None else None
+
+            def apply_patch(name):
+                if pe is not None: raise pe
+                exists['/src/subprojects/foo-1.0/meson.build'] = True
+            def apply_diff_files():
+                if de is not None: raise de
+            r.apply_patch = apply_patch; r.apply_diff_files = apply_diff_files
+            try:
+                r._resolve('foo')
+                failed = False
+            except Exception as e:
+                failed = True
+                check(e is pe or e is de, 'the original error propagates')
+            if pe is not None or de is not None:
+                check(failed, 'a failed patch/diff step fails the resolution')
+                check(not exists.get('/src/subprojects/foo-1.0', False), 'a failed patch/diff step removes the freshly unpacked directory')
+                cover('cleaned')
+            else:
+                check(not failed and exists.get('/src/subprojects/foo-1.0', False), 'a successful resolution keeps the directory'); cover('resolved')
+        finally:
+            W.os, W.windows_proof_rmtree = saved
+    return h
+
+
 def obligations(tier):
     out = [Obligation('policy', ob_policy(False), dict(cells='wrap_mode x force_fallback_for(name,subproject) x required x allow_fallback x fallback kind x system x subproject ok x override'),
                       labels=('system', 'subproject', 'notfound', 'error', 'arg-error'), max_paths=3000000),
@@ -282,5 +338,7 @@ def obligations(tier):
                       labels=('system', 'subproject', 'notfound', 'error'), max_paths=5000000),
            Obligation('override', ob_override(), dict(override='found / not found, symbolic version vs symbolic constraint'), labels=('override', 'notfound', 'error')),
            Obligation('sources/source', ob_sources('source'), dict(kinds='url | url+fallback url | packagefiles', faults='existence, digests, download failures symbolic'), labels=('returned', 'refused')),
-           Obligation('sources/patch', ob_sources('patch'), dict(kinds='url | url+fallback url | packagefiles'), labels=('returned', 'refused'))]
+           Obligation('sources/patch', ob_sources('patch'), dict(kinds='url | url+fallback url | packagefiles'), labels=('returned', 'refused')),
+           Obligation('sources/cleanup-after-failed-patch', ob_cleanup(), dict(patch_outcome='ok | WrapException | OSError | EOFError | ValueError', diff_outcome='same', upstream_buildfile='symbolic'),
+                      labels=('cleaned', 'resolved'))]
     return out
